@@ -54,7 +54,8 @@ CLAIMED.update({
  "C08": dict(
    text="Deductive proof of the analyzer side of front-end agreement: asDiag turns a warning into exactly the diagnostic 'name: text' at the same position and forwards the quick fix unchanged "
         "as one TextEdit (field by field); runAnalyzer converts and reports every warning of every created checker for every file exactly once (per-iteration postconditions), "
-        "the CLI prints the same triple (C16 clauses shared). Selection and parameter agreement are C06/C14. NOT decided: that the analyzer offers every checker the CLI offers "
+        "every file of the pass is analysed by every created checker; the CLI prints the same triple (C16 clauses shared), splits its -enable/-disable values with the same contract as the analyzer "
+        "(items are trimmed) and hands exactly the -go flag to the shared context without touching it per package. Selection and parameter agreement are C06/C14. NOT decided: that the analyzer offers every checker the CLI offers "
         "(the registry snapshot is taken before embedded rules are registered - known finding), package loading and test-variant de-duplication.",
    design="§7 C08", technique="contract-based deductive verification (field-level postconditions, ghost event logs; SMT)"),
 })
@@ -79,9 +80,12 @@ CLAIMED.update({
    text="Zero-annotation deductive sweep over every function of checkers, checkers/internal/astwalk, checkers/internal/lintutil and linter (about 560 functions): "
         "one obligation per panic-capable SSA instruction (nil dereference, index and slice bounds, unchecked type assertion, division, explicit panic, non-nil receiver/node arguments "
         "of repository calls) generated from the current tree and discharged under the theory ast-valid (what the parser and type checker guarantee, deliberately nothing about "
-        "argument counts derived from a callee's spelling). About 2300 of about 2490 obligations are proved on the unchanged tree and recorded in ledger/C01.proved; the check fails when "
-        "one of them no longer discharges or is replaced by an undischarged one. The remaining obligations (listed in the evidence as undecided_not_claimed) are NOT claimed: they include "
-        "the genuine crash sites known from DESIGN §9 as well as facts about the regexp parser's trees and string shapes that the theory does not provide. Termination is not proved here.",
+        "argument counts derived from a callee's spelling; every fact guarded by 'is a node of a parsed tree', so the all-zero sentinel nodes of astcast and hand-built nodes are excluded; "
+        "validated against 7 643 real files in the thorough tier) and theory regex-syntax-valid (arity of the regexp parser's operations). About 3020 of about 3220 obligations are proved on the "
+        "unchanged tree and recorded in ledger/C01.proved; the check fails when one of them no longer discharges or is replaced by an undischarged one. The remaining obligations (listed in the "
+        "evidence as undecided_not_claimed) are NOT claimed - an undecided obligation is a place nobody has looked at, two genuine crashes were found exactly there by sub-agents. The sweep relies on "
+        "the contracts of other properties at call sites (a change that breaks such a contract is reported by that property's check). Termination is not proved here (a stack overflow in sqlQuery "
+        "was found by a sub-agent, not by this check).",
    design="§7 C01", technique="contract-based deductive verification, zero-annotation safety sweep with a ledger of proved obligations (SMT)"),
 })
 
@@ -90,8 +94,8 @@ CLAIMED.update({
    text="Zero-annotation deductive frame sweep over every function that can run under Checker.Check (checkers, astwalk, lintutil, linter): one obligation per heap write "
         "(store, map update, in-place append, copy, delete) and per call (the callee's frame must fit the caller's): the written location is either freshly allocated by the "
         "function (astcopy results count as fresh) or part of the state owned by the checker - its scratch fields, the contents of its own maps and slices, the warning buffer of its "
-        "CheckerContext. Cursor mutators of astutil.Apply require a private (copied) root. TypeOf/SizeOf and the other contract functions are pure. About 2670 of 2990 obligations are "
-        "proved on the unchanged tree (ledger/C05.proved); an unproved obligation that is in neither ledger - i.e. a new write whose target is not provably owned or fresh - fails the check. "
+        "CheckerContext. Cursor mutators of astutil.Apply require a private (copied) root. TypeOf/SizeOf and the other contract functions are pure. Local slices carried around loops are shown "
+        "to stay function-local by candidate invariants (kept when inductive). About 2900 of 2990 obligations are proved on the unchanged tree (ledger/C05.proved); an unproved obligation that is in neither ledger - i.e. a new write whose target is not provably owned or fresh - fails the check. "
         "Writes inside dependencies (go/types laziness, astfmt, the rule engine) are assumed away.",
    design="§7 C05", technique="contract-based deductive verification, zero-annotation frame sweep (assigns / ownership obligations; SMT)"),
 })
@@ -113,8 +117,10 @@ CLAIMED.update({
         "and builds a well-formed predicate table; failOnParseError(e) is true iff 'all' is listed, or 'import' and e is an import error, or 'dsl' and e is not (range over the table with a "
         "visited-keys ghost, the predicates being verified closures called through function values); the legacy failOnError flag maps to 'all'; the group filter runs a group iff "
         "(enable is <all>, or its name or a tag is enabled) and its name is not disabled and no tag is disabled, with the tag scans verified as separate closures; every disable entry is recorded "
-        "as a tag or a name; a pattern that matches no file ends initialisation with an error; with no rules the checker has no engine; an initialisation error returns no checker; the engine is "
-        "run per file with the current context. What the engine does with loaded files, filepath.Glob and file contents are outside.",
+        "as a tag or a name; a pattern that matches no file (or is malformed) ends initialisation with an error; a file counts as loaded only if the engine loaded it, and the engine is installed only if "
+        "some file loaded; the failOn policy is applied to the error of each file separately (every read or load error of an iteration that completes is of a class not listed); with no rules the "
+        "checker has no engine; an initialisation error returns no checker; the engine is run per file with the current context. What the engine does with loaded files, filepath.Glob and file "
+        "contents are outside; the classification of errors into import/dsl is the dependency's.",
    design="§7 C18", technique="contract-based deductive verification (closures, map-range ghost, pure dynamic calls; SMT)"),
 })
 
@@ -136,8 +142,9 @@ CLAIMED.update({
         "local-expression, function-declaration) every top-level declaration of the file is examined (no early exit), a function declaration is traversed iff the visitor's EnterFunc "
         "accepts it - exactly once and starting from that declaration's own body/node - so the work done for one declaration is decided by that declaration and the visitor alone; every "
         "implementation of EnterFunc accepts only functions with a body; the traversal callbacks visit each matching node once and consume the one-shot SkipChilds flag after every visit; "
-        "skipChilds returns and clears the flag. Per-function scratch state is reset before use (property C03's reset-before-read obligations). The example-file clause of the property "
-        "(re-running curated positive/negative files under padding and permutation) cannot be executed by contracts and is not decided; comment walkers are not yet under contract.",
+        "skipChilds returns and clears the flag; the type-expression walker hands a node to the visitor only through visit(), which consumes the flag (so a flag set by one visit cannot leak into the next "
+        "node). Per-function scratch state is reset before use (property C03's reset-before-read obligations). The example-file clause of the property (re-running curated positive/negative files "
+        "under padding and permutation) cannot be executed by contracts and is not decided; comment walkers are not under contract.",
    design="§7 C13", technique="contract-based deductive verification (interface-method contracts, per-iteration postconditions, ghost event logs; SMT)"),
 })
 
